@@ -15,6 +15,11 @@
 // has seen the command exited while output is still outstanding (faults
 // gosimple_real_nap_after_exit, backlog_beyond_c2_window_during_nap): a grace
 // period after which output is given up shows only then.
+//
+// A third, small family (Config.Fam == "nostart", nostart.go) wraps a command
+// that cannot be started at all (nothing at the path, no execute permission, a
+// directory, a bare name not on PATH): Go must report an error and the output
+// stream must end all the same.
 package cmdshellsim
 
 import (
@@ -56,6 +61,7 @@ const (
 //
 //	consumer: rgate(g=reaped|go_returned|input_done) read(n,sz) drain(sz)
 //	          readx(sz,n) nap(n)
+//	go:       gowait(g=consumer_reading)   (family famNoStart only, nostart.go)
 //
 // readx: the consumer reads sz bytes at a time, pausing n microseconds after
 // each read, until the child is seen to have exited (an observed state; the
@@ -86,7 +92,9 @@ type Config struct {
 	// point the program itself uses, simpleshell.GoSimple, against an HTTPS
 	// server of the worker that plays curlrevshell's /io side (pinned key,
 	// loopback): the consumer is the handler reading the request body, the
-	// input is the response body, the puppet is the command.
+	// input is the response body, the puppet is the command.  famNoStart
+	// drives a CmdShell directly around a command that cannot be started
+	// (nostart.go): there is no puppet.
 	Fam string `json:"fam,omitempty"`
 	// Win is the server's HTTP/2 receive buffer per stream and connection
 	// (0: net/http's default).  It only changes how much output is in flight
@@ -94,6 +102,11 @@ type Config struct {
 	Win int `json:"win,omitempty"`
 	// FPre: the pinned fingerprint is given with its optional sha256// prefix.
 	FPre bool `json:"fpre,omitempty"`
+	// Kind (family famNoStart only): why the command cannot be started, one
+	// of noStartKinds.
+	Kind string `json:"kind,omitempty"`
+	// NoIn (family famNoStart only): SetInput is not called at all.
+	NoIn bool `json:"noin,omitempty"`
 }
 
 const famGoSimple = "gosimple"
@@ -136,6 +149,7 @@ type plan struct {
 	napMS      int  // real-time naps of the consumer, in all
 	napReaped  bool // a nap of at least longNapMS after the child was seen reaped
 	unblocker  bool // input bytes follow a child_exited gate
+	goWait     bool // famNoStart: Go is called only once the consumer is reading
 }
 
 func (it Item) String() string {
@@ -159,11 +173,16 @@ func newPlan(cfg Config, items []Item) (*plan, string) {
 	written := 0
 	gs := false
 	mWrite, mOutput := maxWrite, maxOutput
+	if cfg.Fam != famNoStart && (cfg.Kind != "" || cfg.NoIn) {
+		return nil, "options of the cannot-be-started family in another family"
+	}
 	switch cfg.Fam {
 	case "":
 		if cfg.Win != 0 || cfg.FPre {
 			return nil, "server options without a server"
 		}
+	case famNoStart:
+		return newPlanNoStart(p)
 	case famGoSimple:
 		gs = true
 		mWrite, mOutput = gsMaxWrite, gsMaxOutput
